@@ -178,6 +178,10 @@ def perform(a, objs, umap, k):
     if op == "eqn": return x == 2
     if op == "np.linspace_qn": return np.linspace(x, 5, 3)
     if op == "np.logspace_qn": return np.logspace(x, 2, 3)
+    if op == "radd0": return 0 + x
+    if op == "radd0f": return 0.0 + x
+    if op == "sum1": return sum([x])
+    if op == "sum2": return sum([x, y])
     if op == "muln1": return x * 1
     if op == "divn1": return x / 1
     if op == "rmul1": return 1 * x
